@@ -14,6 +14,7 @@ codes (7-bit, no `-`), hence in particular all 26² + 26³ lowercase languages a
 -/
 import AgVerif.Proof.Locale
 import AgVerif.Gen.LocaleConsts
+import AgVerif.Proof.PyLocale
 namespace AgVerif.C30
 open AgVerif.Locale AgVerif.Spec.Locale
 
@@ -218,5 +219,35 @@ example : Half 0x65 0x6e ∧ Half 0x55 0x53 ∧ Half 0xad 0x05 ∧ Half 0 0 := b
   unfold Half Packed Plain; omega
 example : isLower 102 ∧ isUpperOrDigit 85 ∧ isDigit 52 := by
   unfold isLower isUpperOrDigit isDigit; omega
+
+/-! ### the source, translated, is the model
+AgVerif.Gen.PyLocale is generated on each run from the Python source of the two pure helpers by
+gen/py2lean.py (statement by statement; subset in its docstring, operators in Model/PyInt.lean). -/
+
+/-- `_unpack_language_or_region` as translated from the source = the hand model `unpack`, for
+    every pair of bytes and every base `chr` accepts (the code uses 0x61 and 0x30). -/
+theorem gen_unpack_eq (c0 c1 base : Nat) (h0 : c0 < 256) (h1 : c1 < 256) (hb : base ≤ 1114000) :
+    Gen.PyLocale.unpack_language_or_region [(c0 : Int), (c1 : Int)] (base : Int)
+      = some (PyLocale.ints (unpack c0 c1 base)) :=
+  PyLocale.gen_unpack_eq c0 c1 base h0 h1 hb
+
+/-- `_pack_language_or_region` as translated from the source = the hand model `pack`, for every
+    string (any length, any code points) and every base. -/
+theorem gen_pack_eq (s : List Nat) (base : Nat) :
+    Gen.PyLocale.pack_language_or_region (PyLocale.ints s) (base : Int)
+      = some [(((pack s base).1 : Nat) : Int), (((pack s base).2 : Nat) : Int)] :=
+  PyLocale.gen_pack_eq s base
+
+/-- unpack_pack, about the translated source: packing what the source unpacks gives the bytes back. -/
+theorem src_unpack_pack (c0 c1 base : Nat) (h : Half c0 c1) (h0 : c0 < 256) (h1 : c1 < 256)
+    (hb : base ≤ 1114000) :
+    ∃ str : List Nat,
+      Gen.PyLocale.unpack_language_or_region [(c0 : Int), (c1 : Int)] (base : Int) = some (PyLocale.ints str) ∧
+      Gen.PyLocale.pack_language_or_region (PyLocale.ints str) (base : Int) = some [(c0 : Int), (c1 : Int)] := by
+  refine ⟨unpack c0 c1 base, gen_unpack_eq c0 c1 base h0 h1 hb, ?_⟩
+  rw [gen_pack_eq, unpack_pack c0 c1 base h]
+
+example : Gen.PyLocale.unpack_language_or_region [0x98, 0xa5] 0x61 = some [0x66, 0x66, 0x67] := by decide
+example : Gen.PyLocale.pack_language_or_region [0x66, 0x66, 0x67] 0x61 = some [0x98, 0xa5] := by decide
 
 end AgVerif.C30
